@@ -111,7 +111,7 @@ Proof.
   induction rem as [|r IH]; intros s H Hund; simpl;
     destruct (get_m s m) as [x|] eqn:Hx; auto.
   - apply C_finish; auto. apply pend2_self; auto.
-  - destruct (m_bad x).
+  - destruct (nth (m_idx x) (m_bad x) false).
     + set (x' := set_m_idx x (S (m_idx x))).
       destruct (@GC_upd K s (put_m s m x') m x' H) as [A B]; try reflexivity.
       { eapply pend2_chg; [apply pend2_self; eauto| |]; reflexivity. }
